@@ -56,11 +56,15 @@ use vstd::prelude::*;
 use super::vfmt::{VDisp, is_pre};
 #[verifier::external_body]
 pub struct Out { _p: () }
-impl Out { pub uninterp spec fn log(&self) -> Seq<char>; }
+impl Out {
+    pub uninterp spec fn log(&self) -> Seq<char>;
+    // which stream of the run this handle writes to: 1 = the designated output stream, 2 = the designated diagnostics stream
+    pub uninterp spec fn fd(&self) -> int;
+}
 pub uninterp spec fn same_sink(a: Out, b: Out) -> bool;
 impl Clone for Out {
     #[verifier::external_body]
-    fn clone(&self) -> (r: Self) ensures same_sink(*self, r) { unimplemented!() }
+    fn clone(&self) -> (r: Self) ensures same_sink(*self, r), r.fd() == self.fd() { unimplemented!() }
 }
 #[verifier::external_body]
 pub fn disp<T: VDisp + ?Sized>(w: &mut Out, x: &T) -> (r: std::io::Result<()>)
@@ -70,8 +74,6 @@ pub fn disp<T: VDisp + ?Sized>(w: &mut Out, x: &T) -> (r: std::io::Result<()>)
 pub fn disp2<A: VDisp + ?Sized, B: VDisp + ?Sized>(w: &mut Out, a: &A, b: &B) -> (r: std::io::Result<()>)
     ensures r is Ok ==> final(w).log() == old(w).log().add(a.text()).add(b.text()), r is Err ==> is_pre(old(w).log(), final(w).log())
 { unimplemented!() }
-#[verifier::external_body]
-pub fn error_line<E>(w: &Out, e: &E) -> std::io::Result<()> { unimplemented!() }
 #[verifier::external_body]
 #[verifier::reject_recursive_types(R)]
 pub struct StdinFactory<R> { _p: std::marker::PhantomData<R> }
